@@ -3,8 +3,8 @@
 # Author: Erez Shinan (2017)
 # Email : erezshin@gmail.com
 from typing import Dict, Any, Optional
-from ..lexer import Token, LexerThread
-from ..utils import Serialize
+from ..lexer import Token, LexerThread, LineCounter
+from ..utils import Serialize, TextSlice
 from ..common import ParserConf, ParserCallbacks
 
 from .lalr_analysis import LALR_Analyzer, IntParseTable, ParseTableBase
@@ -101,7 +101,15 @@ class _Parser:
                 assert token is not None
                 state.feed_token(token)
 
-            end_token = Token.new_borrow_pos('$END', '', token) if token else Token('$END', '', 0, 1, 1)
+            if token:
+                end_token = Token.new_borrow_pos('$END', '', token)
+            else:
+                end_token = Token('$END', '', 0, 1, 1)
+                # No token at all. In a window of a larger text (TextSlice), the end is where the window begins.
+                text = getattr(getattr(state.lexer, 'state', None), 'text', None)
+                if isinstance(text, TextSlice) and text.start:
+                    line_ctr = LineCounter.from_text_slice(text)
+                    end_token = Token('$END', '', line_ctr.char_pos, line_ctr.line, line_ctr.column)
             return state.feed_token(end_token, True)
         except UnexpectedInput as e:
             try:
